@@ -20,6 +20,7 @@ interpretation over the term domain.
 from __future__ import annotations
 
 import ast
+import re
 import os
 import copy
 
@@ -3503,6 +3504,11 @@ def _compare_summaries(code, ref, near=0.7):
             # the default of the SAME parameter: the two correspond, whatever their values look like
             pre_ = k[1].split(" = ", 1)[0] + " = "
             twin_ = [k2 for k2 in unmatched_code if k2[0] == "signature" and k2[1].startswith(pre_)]
+            # ... when both are immutable constants: `cache={}` turned into `cache=None` + `if cache is None: cache = {}` is the
+            # usual repair of a mutable default, and whether it changes anything is a question about the body
+            _imm = lambda t_: bool(re.fullmatch(r"None|True|False|-?\d+(\.\d+)?|b?'[^']*'|b?\"[^\"]*\"|\(\)", t_.strip()))
+            if twin_ and not (_imm(k[1].split(" = ", 1)[1]) and _imm(twin_[0][1].split(" = ", 1)[1])):
+                twin_ = []
             if twin_:
                 unmatched_code.remove(twin_[0])
                 details.append(("differs", k[0], k[1], twin_[0][1], 1.0))
